@@ -33,6 +33,9 @@ pub fn read<R: std::io::Read>(reader: R) -> Result<(Vec<Participant>, Vec<Course
         serde_json::from_value(courses_data.take()).map_err(|e| format!("{}", e))?;
     for (i, c) in courses.iter_mut().enumerate() {
         c.index = i;
+        // An instructor listed twice is still one instructor
+        let mut seen = std::collections::HashSet::new();
+        c.instructors.retain(|instr| seen.insert(*instr));
     }
 
     Ok((participants, courses))
